@@ -22,7 +22,7 @@
 #include <carquet/carquet.h>
 #include "encoding/rle.h"
 #include "core/buffer.h"
-#if VMODE == 6
+#if VMODE == 6 || VMODE == 7
 #include "ref_codecs.h"
 #endif
 
@@ -36,6 +36,7 @@ carquet_status_t carquet_delta_strings_decode(const uint8_t*, size_t, carquet_by
 carquet_status_t carquet_delta_strings_encode(const carquet_byte_array_t*, int32_t, carquet_buffer_t*);
 size_t carquet_delta_strings_work_buffer_size(const carquet_byte_array_t*, int32_t);
 carquet_status_t carquet_dictionary_encode_int32(const int32_t*, int64_t, carquet_buffer_t*, carquet_buffer_t*);
+carquet_status_t carquet_dictionary_encode_byte_array(const carquet_byte_array_t*, int64_t, carquet_buffer_t*, carquet_buffer_t*);
 carquet_status_t carquet_dictionary_encode_int64(const int64_t*, int64_t, carquet_buffer_t*, carquet_buffer_t*);
 carquet_status_t carquet_dictionary_decode_int32(const uint8_t*, size_t, int32_t, const uint8_t*, size_t, int32_t*, int64_t);
 carquet_status_t carquet_dictionary_decode_int64(const uint8_t*, size_t, int32_t, const uint8_t*, size_t, int64_t*, int64_t);
@@ -283,6 +284,48 @@ void harness(void) {
     SYMX_ASSERT(s == CARQUET_OK, "dictionary decoder accepts carquet's own dictionary and index stream");
     for (int i = 0; i < VCNT; i++) SYMX_ASSERT(out[i] == v[i], "dictionary decode(encode(v)) == v");
     free(out); free(d); free(ix);
+
+#elif VMODE == 7
+    /* BYTE_ARRAY dictionary: VCNT values chosen (symbolically) from a pool that contains values, their proper prefixes and the empty
+       string, in every order.  The pool is built so that prefix pairs meet in one bucket of the builder's hash table (FNV-1a mod 1024:
+       "+D" / "+", ",\"" / ",", "4$" / "" ...), i.e. entries of different length are compared with each other; for any other hash
+       function the obligation is still a sound round trip.  All values are concrete per path; the selection and order are the forks. */
+    static const char* const POOL[8] = {"+D", "+", ",\"", ",", "4$", "", "+D", "zz"};
+    static const int32_t PLEN[8] = {2, 1, 2, 1, 2, 0, 2, 2};
+    static uint8_t extra[2] = {'Q', '9'};      /* (a value with symbolic bytes would make the bucket index symbolic: 1024 pointer slots) */
+    carquet_byte_array_t v[VCNT];
+    for (int i = 0; i < VCNT; i++) {
+        int k = symx_choice(9, "pool entry");
+        if (k < 8) { v[i].data = (uint8_t*)POOL[k]; v[i].length = PLEN[k]; }
+        else { v[i].data = extra; v[i].length = 2; }
+    }
+    carquet_buffer_t dict, idx; carquet_buffer_init(&dict); carquet_buffer_init(&idx);
+    symx_assume(carquet_dictionary_encode_byte_array(v, VCNT, &dict, &idx) == CARQUET_OK);
+    size_t dlen = carquet_buffer_size(&dict), ilen = carquet_buffer_size(&idx);
+    uint8_t* d = exact(carquet_buffer_data(&dict), dlen); uint8_t* ix = exact(carquet_buffer_data(&idx), ilen);
+    carquet_buffer_destroy(&dict); carquet_buffer_destroy(&idx);
+    /* dictionary page = PLAIN byte arrays (4-byte length + bytes), decoded here per the specification */
+    const uint8_t* ent[VCNT + 1]; uint32_t elen[VCNT + 1]; int ne = 0; size_t pos = 0;
+    while (pos < dlen) {
+        SYMX_ASSERT(pos + 4 <= dlen && ne < VCNT, "dictionary page is a sequence of at most VCNT length-prefixed entries");
+        uint32_t l; memcpy(&l, d + pos, 4); pos += 4;
+        SYMX_ASSERT(l <= dlen - pos, "dictionary entry inside the page");
+        ent[ne] = d + pos; elen[ne] = l; ne++; pos += l;
+    }
+    /* indices: <bit width byte> + hybrid RLE, decoded by the reference decoder */
+    uint32_t ind[VCNT + 1];
+    if (VCNT) {
+        SYMX_ASSERT(ilen >= 1, "index stream starts with the bit width");
+        size_t cons = 0;
+        SYMX_ASSERT(ref_rle_hybrid_decode(ix + 1, ilen - 1, ix[0], ind, VCNT, &cons) == REF_OK, "reference decoder reads the index stream");
+    }
+    for (int i = 0; i < VCNT; i++) {
+        SYMX_ASSERT(ind[i] < (uint32_t)ne, "index inside the dictionary");
+        SYMX_ASSERT(elen[ind[i]] == (uint32_t)v[i].length, "dictionary decode(encode(v)) == v (length)");
+        int same = 1; for (int32_t j = 0; j < v[i].length; j++) same &= ent[ind[i]][j] == v[i].data[j];
+        SYMX_ASSERT(same, "dictionary decode(encode(v)) == v (bytes)");
+    }
+    free(d); free(ix);
 
 #elif VMODE == 6
     /* the stream */
